@@ -5,7 +5,9 @@ use crate::with_curve;
 use ark_bulletproofs_ref as refrev;
 use serde_json::{json, Value};
 
-pub const DIR: &str = "/verif/fixtures";
+pub fn dir() -> String {
+    format!("{}/fixtures", crate::paths::verif_root())
+}
 pub const GEN_PARTIES: usize = 4;
 pub const GEN_COUNT: usize = 64;
 
@@ -39,12 +41,12 @@ pub fn record_generators() {
         let v = with_curve!(c, G => ref_generators::<G>());
         o.insert(c.name().to_string(), v);
     }
-    std::fs::create_dir_all(DIR).unwrap();
-    std::fs::write(format!("{}/generators.json", DIR), serde_json::to_string_pretty(&Value::Object(o)).unwrap()).unwrap();
+    std::fs::create_dir_all(dir()).unwrap();
+    std::fs::write(format!("{}/generators.json", dir()), serde_json::to_string_pretty(&Value::Object(o)).unwrap()).unwrap();
 }
 
 pub fn load(name: &str) -> Option<Value> {
-    serde_json::from_str(&std::fs::read_to_string(format!("{}/{}", DIR, name)).ok()?).ok()
+    serde_json::from_str(&std::fs::read_to_string(format!("{}/{}", dir(), name)).ok()?).ok()
 }
 
 // ---------------------------------------------------------------------------------------
@@ -218,6 +220,6 @@ pub fn record_all() {
     record_generators();
     for c in Curve::ALL {
         let v = with_curve!(c, G => record_proofs::<G>());
-        std::fs::write(format!("{}/proofs_{}.json", DIR, c.name()), serde_json::to_string(&v).unwrap()).unwrap();
+        std::fs::write(format!("{}/proofs_{}.json", dir(), c.name()), serde_json::to_string(&v).unwrap()).unwrap();
     }
 }
